@@ -55,7 +55,7 @@ def required_counters(tier):
         "nested_unhooked_inside_hooked": 30,
         "nested_hooked_inside_unhooked": 10,
         "pyc_files_created": 200,
-        "runs_with_cache_present": 100, "runs_with_failing_hooked_import": 20, "runs_read_only_cache": 20, "in_process_reimport": 5, "in_process_edit_and_reimport": 5, "runs_with_checking_disabled": 15, "source_edits.same_mtime_other_size": 10, "in_process_rehook_with_other_checker": 5, "histories.sources_older_than_the_library": 20, "runs_python_O": 30, "histories.pycache_blocked": 5, "corrupt_cache.scenarios": 4, "deep_import.modules": 10,
+        "runs_with_cache_present": 100, "runs_with_failing_hooked_import": 20, "runs_read_only_cache": 20, "in_process_reimport": 5, "in_process_edit_and_reimport": 5, "runs_with_checking_disabled": 15, "source_edits.same_mtime_other_size": 10, "in_process_rehook_with_other_checker": 5, "histories.sources_older_than_the_library": 20, "runs_python_O": 30, "histories.pycache_blocked": 5, "corrupt_cache.scenarios": 4, "concurrent_imports.scenarios": 1, "deep_import.modules": 10,
     }
 
 
@@ -468,8 +468,100 @@ def arm_corrupt_cache(rec, rng):
             shutil.rmtree(root, ignore_errors=True)
 
 
+CONCURRENT_CHILD = r'''
+import importlib, json, sys, threading, time, warnings
+warnings.filterwarnings("ignore")
+import numpy as np, jaxtyping
+sys.path.insert(0, sys.argv[1])
+mode, smalls = sys.argv[2], json.loads(sys.argv[3])
+def obs(name):
+    mod = sys.modules[name]
+    o = {"wrapped": hasattr(mod.f, "__wrapped__")}
+    try:
+        o["ill"] = mod.f(np.zeros(2, dtype="float32"), np.zeros(3, dtype="float32"))
+    except Exception as e:
+        o["ill"] = "exc:" + type(e).__name__
+    return o
+out = {}
+if mode == "concurrent":
+    hook = jaxtyping.install_import_hook(["jtv_big"], "typeguard.typechecked")
+    started = threading.Event()
+    def big():
+        started.set()
+        importlib.import_module("jtv_big")
+    def small():
+        started.wait(30)
+        for nme in smalls:
+            time.sleep(0.02)
+            importlib.import_module(nme)
+    ta, tb = threading.Thread(target=big), threading.Thread(target=small)
+    ta.start(); tb.start(); ta.join(300); tb.join(300)
+    hook.uninstall()
+    out["big"] = obs("jtv_big")
+elif mode == "hooked":
+    with jaxtyping.install_import_hook(smalls, "typeguard.typechecked"):
+        for nme in smalls:
+            importlib.import_module(nme)
+else:
+    for nme in smalls:
+        importlib.import_module(nme)
+for nme in smalls:
+    out[nme] = obs(nme)
+print(json.dumps(out))
+'''
+
+
+def arm_concurrent_imports(rec):
+    """run 1: one thread imports a LARGE hooked module (its compilation takes a while) while another thread imports
+    small modules that no hook covers; run 2 (fresh process) hooks the small modules; run 3 uses no hook. Every module
+    is, in every run, what that run's configuration calls for"""
+    root = tempfile.mkdtemp(prefix="jtv_c18_conc_")
+    try:
+        big = DEEP_MOD.format(big="1") + "".join(f"def g_{i}(a: int, b: str = 'x') -> int:\n    return a + {i}\n" for i in range(4000))
+        open(os.path.join(root, "jtv_big.py"), "w").write(big)
+        smalls = [f"jtv_small_{k}" for k in range(8)]
+        for nme in smalls:
+            open(os.path.join(root, nme + ".py"), "w").write(DEEP_MOD.format(big="2"))
+        env = dict(os.environ)
+        env.pop("PYTHONDONTWRITEBYTECODE", None)
+        env.pop("JAXTYPING_DISABLE", None)
+
+        def run(mode):
+            r = subprocess.run([sys.executable, "-c", CONCURRENT_CHILD, root, mode, json.dumps(smalls)], capture_output=True, text=True, env=env, timeout=900, cwd=root)
+            try:
+                return json.loads(r.stdout.strip().splitlines()[-1])
+            except Exception:
+                return {"error": r.stderr[-300:]}
+
+        r1 = run("concurrent")
+        tagged_small = sorted(p for p in pycs(root) if "jaxtyping" in p and "small" in p)
+        r2 = run("hooked")
+        r3 = run("plain")
+        if any("error" in r for r in (r1, r2, r3)):
+            rec.inconclusive.append(f"concurrent-import arm: a child failed: {[r.get('error') for r in (r1, r2, r3)]}")
+            return
+        rec.count("concurrent_imports.scenarios")
+        rec.count("concurrent_imports.small_modules_cached_under_hook_tag_in_run1", len(tagged_small))
+        rec.case(("concurrent-imports",), True)
+        case = {"concurrent_imports": True, "pyc_with_hook_tag_for_unhooked_modules_after_run1": tagged_small[:6]}
+        for nme in smalls:
+            if r1[nme] != {"wrapped": False, "ill": "ran"}:
+                rec.violation("wrong-instrumentation", dict(case, run=1, module=nme), f"run 1: {nme} (no hook covers it) imported while another thread was loading a hooked module: {r1[nme]}", mechanism="concurrent-import-instrumented-by-other-threads-hook")
+                return
+            if r2[nme] != {"wrapped": True, "ill": "exc:TypeCheckError"}:
+                rec.violation("wrong-instrumentation", dict(case, run=2, module=nme), f"run 2 hooks {nme}: it comes back {r2[nme]} - run 1 had imported it UNhooked in one thread while another thread was loading a hooked module, and cached it under the hook's tag ({tagged_small[:3]})", mechanism="concurrent-import-during-hooked-load-cached-under-hook-tag")
+                return
+            if r3[nme] != {"wrapped": False, "ill": "ran"}:
+                rec.violation("wrong-instrumentation", dict(case, run=3, module=nme), f"run 3 (no hook): {nme} comes back {r3[nme]}", mechanism="cache-serves-instrumented-code-to-unhooked-module")
+                return
+    finally:
+        shutil.rmtree(root, ignore_errors=True)
+
+
 def run_shard(rec, seed, shard, tier):
     warnings.filterwarnings("ignore")
+    if shard["i"] == 3:
+        arm_concurrent_imports(rec)
     if shard["i"] == 0:
         arm_deep_import(rec)
     if shard["i"] in (1, 2):
